@@ -11,7 +11,7 @@ Not decided: wall-clock behaviour of the reactor.
 import ast
 
 from ..model import self_attr, unparse, walk_body_shallow
-from .util import bootstrap_names, call_name, call_recv, calls_in, evaluated_unconditionally, kwarg, need, node_assign_value, norm, registrations, where
+from .util import const_value, bootstrap_names, call_name, call_recv, calls_in, evaluated_unconditionally, kwarg, need, node_assign_value, norm, registrations, where
 
 TECHNIQUE = "timer armed/released pairing on the CFG, registration-kind and free-variable-before-registration checks, " \
             "who-may-call"
@@ -122,7 +122,8 @@ def run(ctx):
     sj = ctx.func("_group:Coordinator.send_join_group_request")
     cs = [x for x in calls_in(sj, "_send_request_to_coordinator")]
     mt = kwarg(cs[0], "min_timeout") if cs else None
-    r.check(isinstance(mt, ast.Constant) and isinstance(mt.value, (int, float)) and mt.value >= 30, "%s#min_timeout" % sj.qname,
+    mtv = const_value(prog, sj, mt) if mt is not None else None
+    r.check(isinstance(mtv, (int, float)) and not isinstance(mtv, bool) and mtv >= 30, "%s#min_timeout" % sj.qname,
             "join request does not ask for a timeout above the 30s rebalance window", where(sj, sj.node),
             "join times out client-side while the group is still rebalancing: rejoin storm")
     src = ctx.func(KC + "._send_request_to_coordinator")
